@@ -35,7 +35,7 @@ MANIFEST_INFO = {
     "engine": "B",
     "design_ref": "DESIGN.md section 5, C04",
     "technique": "explicit-state BFS over TestResult call histories (startTestRun, startTest, six outcomes, stopTest, stopTestRun, stop) on every adapter stack of depth 0..2/3 over TestResult / TextTestResult with failfast off, set on the inner result(s) before wrapping (all of them or only the first), or on the outermost object after wrapping; verdict/stop reference model compared at every state, TextTestResult summary parsed at every stopTestRun; real suites of generated TestCases and testtools.run driven in-process for every outcome history",
-    "level_text": "All well-formed histories up to depth 8 (quick) / 10 (thorough) over 2 (3) tests are applied to every configuration (about 300 quick; listed in the evidence) (bare results, MultiTestResult with 1-2 branches (failfast on both, on the first only, or on the second only and then switched off on the multiplexer), ThreadsafeForwardingResult, ExtendedToOriginalDecorator, TestResultDecorator, Tagger stacked to depth 2 (3), and ExtendedToStreamDecorator for the failfast/stop clauses, also with failfast switched on and off while the run is under way; where a ThreadsafeForwardingResult is outermost, stop() may also arrive through a sibling forwarder on the same target); one test may report two problems (except through ThreadsafeForwardingResult); after every call wasSuccessful() must equal 'no error, failure or unexpected success since the last startTestRun', shouldStop must be false before and true from the first such outcome with failfast (or stop()) on, at the outermost object and at every underlying result, and TextTestResult's summary (count, OK/FAILED, failures=K, one section per problem) must agree. Every outcome history of <= 3 real TestCases is run as a suite against failfast results (dispatch stops right after the first bad test) and through testtools.run in-process, with and without -f (exit status and printed summary).",
+    "level_text": "All well-formed histories up to depth 8 (quick) / 10 (thorough) over 2 (3) tests are applied to every configuration (about 300 quick; listed in the evidence) (bare results, MultiTestResult with 1-2 branches (failfast on both, on the first only, or on the second only and then switched off on the multiplexer), ThreadsafeForwardingResult, ExtendedToOriginalDecorator, TestResultDecorator, Tagger stacked to depth 2 (3), and ExtendedToStreamDecorator for the failfast/stop clauses, also with failfast switched on and off while the run is under way; where a ThreadsafeForwardingResult is outermost, stop() may also arrive through a sibling forwarder on the same target); one test may report two problems (except through ThreadsafeForwardingResult); suites also contain a stdlib TestCase whose only problem is a failing subTest; after every call wasSuccessful() must equal 'no error, failure or unexpected success since the last startTestRun', shouldStop must be false before and true from the first such outcome with failfast (or stop()) on, at the outermost object and at every underlying result, and TextTestResult's summary (count, OK/FAILED, failures=K, one section per problem) must agree. Every outcome history of <= 3 real TestCases is run as a suite against failfast results (dispatch stops right after the first bad test) and through testtools.run in-process, with and without -f (exit status and printed summary).",
     "level_note": "failfast is set after wrapping only on objects that define a failfast attribute of their own forwarding (MultiTestResult, ExtendedToOriginalDecorator, ExtendedToStreamDecorator, bare results); wasSuccessful() is not demanded of ExtendedToStreamDecorator (the statement names it only for failfast/stop); process exit status is SystemExit.code in-process.",
 }
 
@@ -327,8 +327,8 @@ def check_summary(text, m):
 # ---------------------------------------------------------------------------
 # real suites and testtools.run
 
-KINDS = ("success", "failure", "error", "skip", "xfail", "uxsuccess", "double")
-KIND_BAD = ("failure", "error", "uxsuccess", "double")
+KINDS = ("success", "failure", "error", "skip", "xfail", "uxsuccess", "double", "subfail")
+KIND_BAD = ("failure", "error", "uxsuccess", "double", "subfail")
 RAN = []
 
 
@@ -347,6 +347,21 @@ def make_case(kind, n):
                 return "k%d.double" % n
 
         return D("test_it")
+
+    if kind == "subfail":
+        # plain unittest.TestCase whose only problem is a failing subTest
+        class S(unittest.TestCase):
+            def test_it(self):
+                RAN.append(n)
+                with self.subTest(i=1):
+                    self.fail("sub")
+                with self.subTest(i=2):
+                    pass
+
+            def id(self):
+                return "k%d.subfail" % n
+
+        return S("test_it")
 
     class K(testtools.TestCase):
         def test_it(self):
@@ -395,6 +410,11 @@ def check_suites(res, tier):
                 want = list(range(n)) if (first_bad is None or not ff) else list(range(first_bad + 1))
                 if RAN != want:
                     problems.append(("suite-dispatch", "suite %r against %r (failfast=%r) ran tests %r, expected %r" % (kinds, config, ff, list(RAN), want)))
+                if config[0] != "etsd":
+                    ran_bad = any(kinds[i] in KIND_BAD for i in want)
+                    verdicts = [impl.top.wasSuccessful()] + [l.wasSuccessful() for l in impl.leaves]
+                    if verdicts != [not ran_bad] * len(verdicts):
+                        problems.append(("suite-wasSuccessful", "suite %r against %r: wasSuccessful() of the outermost / underlying results is %r, tests that ran: %r" % (kinds, config, verdicts, [kinds[i] for i in want])))
             # testtools.run in process
             for flag in ([], ["-f"]):
                 _MOD.test_suite = lambda kinds=kinds: unittest.TestSuite([make_case(k, i) for i, k in enumerate(kinds)])
@@ -420,6 +440,10 @@ def check_suites(res, tier):
                     if k == "double":
                         m.counts["addFailure"] += 1
                         m.counts["addError"] += 1
+                        m.bad = True
+                        continue
+                    if k == "subfail":
+                        m.counts["addFailure"] += 1
                         m.bad = True
                         continue
                     m.counts[{"success": "addSuccess", "failure": "addFailure", "error": "addError", "skip": "addSkip", "xfail": "addExpectedFailure", "uxsuccess": "addUnexpectedSuccess"}[k]] += 1
